@@ -21,13 +21,18 @@ RECURSIVE DsDims(_)
 DsDims(vs) == IF vs = <<>> THEN <<>>
               ELSE LET rest == DsDims(SubSeq(vs, 1, Len(vs) - 1)) IN rest \o SelectSeq(vs[Len(vs)], LAMBDA d : d \notin Rng(rest))
 
-OpsOnDim == {"take_scalar", "take_list", "take_slice", "take_position", "isel_scalar", "sel_list",
-             "mean", "sum", "std", "var", "median", "take_axis", "sort_axis", "reindex_axis", "reindex_fill", "interp_axis", "interp_axis_oob"}
+OpsOnDim == {"take_scalar_keepdims", "isel_scalar_keepdims", "take_scalar", "take_list", "take_slice", "take_position", "isel_scalar", "sel_list",
+             "mean", "sum", "std", "var", "median", "take_axis", "sort_axis", "reindex_axis", "reindex_fill", "reindex_left", "reindex_right", "interp_axis", "interp_axis_oob"}
 Drops == {"take_scalar", "isel_scalar", "mean", "sum", "std", "var", "median"}
-CarriesAttrs == {"take_scalar", "take_list", "take_slice", "take_position", "isel_scalar", "sel_list", "take_axis", "sort_axis",
-                 "reindex_axis", "reindex_fill", "interp_axis", "interp_axis_oob"}
+CarriesAttrs == {"take_scalar_keepdims", "isel_scalar_keepdims", "take_scalar", "take_list", "take_slice", "take_position", "isel_scalar", "sel_list", "take_axis", "sort_axis",
+                 "reindex_axis", "reindex_fill", "reindex_left", "reindex_right", "interp_axis", "interp_axis_oob"}
 Whole == {"add_ds", "mul_scalar", "rsub_scalar", "neg", "stack_ds", "concatenate_ds", "construct_misaligned",
-          "add_ds_misaligned", "sub_ds_misaligned", "stack_ds_align", "concatenate_ds_align", "concatenate_ds_align_pos"}
+          "add_ds_misaligned", "sub_ds_misaligned", "stack_ds_align", "concatenate_ds_align", "concatenate_ds_align_pos",
+          "concatenate_ds_mismatch"}
+\* concatenate_ds_mismatch: the second Dataset carries the labels of x and y in another order (same lengths).  Without align=True
+\* a variable that has the concatenation dimension d and another of those dimensions cannot be joined: the call must be
+\* rejected, as concatenate() on that variable is.
+Rejects(o, vs, d) == o = "concatenate_ds_mismatch" /\ \E i \in 1..Len(vs) : d \in Rng(vs[i]) /\ \E q \in Rng(vs[i]) : q # d /\ q \in {"x", "y"}
 
 Init == in = <<>> /\ out = <<>> /\ ph = 0
 Choose ==
@@ -35,15 +40,16 @@ Choose ==
   /\ \E n \in 1..MaxVars : \E vs \in [1..n -> VarPool] :
        LET dd == DsDims(vs) IN
        \/ \E o \in OpsOnDim : \E d \in Rng(dd) : \E byname \in BOOLEAN :
-            /\ (o \in {"interp_axis", "interp_axis_oob", "reindex_fill"} => d = "x" \/ d = "y")
+            /\ (o \in {"interp_axis", "interp_axis_oob", "reindex_fill", "reindex_left", "reindex_right"} => d = "x" \/ d = "y")
             /\ in' = [vars |-> vs, op |-> o, d |-> d, byname |-> byname]
             /\ out' = [affected |-> [i \in 1..n |-> d \in Rng(vs[i])],
                        dims |-> IF o \in Drops THEN SelectSeq(dd, LAMBDA q : q # d) ELSE dd,
-                       attrs |-> o \in CarriesAttrs, pervar |-> TRUE]
+                       attrs |-> o \in CarriesAttrs, pervar |-> TRUE, rejects |-> FALSE]
        \/ \E o \in Whole :
             /\ in' = [vars |-> vs, op |-> o, d |-> IF Len(dd) > 0 THEN dd[1] ELSE "", byname |-> TRUE]
             /\ out' = [affected |-> [i \in 1..n |-> TRUE],
-                       dims |-> IF o \in {"stack_ds", "stack_ds_align"} THEN <<"k">> \o dd ELSE dd, attrs |-> FALSE, pervar |-> TRUE]
+                       dims |-> IF o \in {"stack_ds", "stack_ds_align"} THEN <<"k">> \o dd ELSE dd, attrs |-> FALSE, pervar |-> TRUE,
+                       rejects |-> Rejects(o, vs, IF Len(dd) > 0 THEN dd[1] ELSE "")]
   /\ (Emit => PrintT(ToJson([op |-> "dataset_op", in |-> in', out |-> out'])))
 Next == Choose
 Spec == Init /\ [][Next]_vars
